@@ -7,6 +7,7 @@ use vharness::*;
 mod diag;
 mod docsession;
 mod docsync;
+mod features;
 mod format;
 mod script;
 mod trace;
@@ -40,6 +41,7 @@ fn main() {
         "docsync" => docsync::run(cases, max_fail, &opts),
         "diag" => diag::run(cases, max_fail, &opts),
         "format" => format::run(cases, max_fail, &opts),
+        "features" => features::run(cases, max_fail, &opts),
         "docsession" => docsession::run_sessions(cases, max_fail, &opts),
         "roundtrip" => docsession::run_roundtrip(cases, max_fail, &opts),
         "trace" => trace::run(cases, opts.get("trace_out").map(|s| s.as_str()).unwrap_or("/verif/out/trace.ndjson"), &opts),
